@@ -119,6 +119,43 @@ func emitDerived(out *Out, g *DocGen, root *ANode, hs HSpec, r *Rng) {
 			}
 			nchecked++
 		}
+		// (h) the merklizer names its hasher; Go-typed integers through MkValue and NewValue follow the configured prime
+		if hh := mz.Hasher(); hh == nil || hh.Prime().Cmp(hs.Prime) != 0 {
+			why = append(why, "Merklizer.Hasher() is not the configured hasher")
+		} else if a, e1 := hh.HashBytes([]byte("probe")); e1 == nil {
+			if b, e2 := hs.H.HashBytes([]byte("probe")); e2 != nil || a.Cmp(b) != 0 {
+				why = append(why, "Merklizer.Hasher() hashes differently from the configured hasher")
+			}
+		}
+		for _, gv := range []any{int(-3), int64(-4), int32(-5), int(7), int64(8), uint(9), uint32(10), uint64(11), int64(0)} {
+			var want *big.Int
+			switch x := gv.(type) {
+			case int:
+				want = big.NewInt(int64(x))
+			case int64:
+				want = big.NewInt(x)
+			case int32:
+				want = big.NewInt(int64(x))
+			case uint:
+				want = new(big.Int).SetUint64(uint64(x))
+			case uint32:
+				want = new(big.Int).SetUint64(uint64(x))
+			case uint64:
+				want = new(big.Int).SetUint64(x)
+			}
+			if want.Sign() < 0 {
+				want.Add(want, hs.Prime)
+			}
+			for which, mk := range map[string]func(any) (merklize.Value, error){"MkValue": mz.MkValue, "NewValue": func(v any) (merklize.Value, error) { return merklize.NewValue(hs.H, v) }} {
+				v, err := mk(gv)
+				if err != nil {
+					continue // a Go type the constructor does not take: an error is fine, a wrong number is not
+				}
+				if got, err := v.MtEntry(); err != nil || got.Cmp(want) != 0 {
+					why = append(why, fmt.Sprintf("%s(%T %v) under the configured prime %v encodes as %v (%v), expected %v", which, gv, gv, hs.Prime, got, err, want))
+				}
+			}
+		}
 		// (g) values at and beyond the limits of the configured prime, through the merklizer's own value constructor: refused
 		// beyond, v or p+v inside - and a refusal changes nothing about what comes after
 		pr := hs.Prime
